@@ -31,9 +31,12 @@ INVARIANT TraceInv
 
 def mk(rng, kind, n, keys, tier):
     m = len(keys)
-    style = rng.pick(["range", "shuffled", "dups", "sorted_dups"])
+    style = rng.pick(["range", "shuffled", "dups", "sorted_dups", "range_off"])
     if style == "range":
         idx = list(range(m))
+    elif style == "range_off":        # a RangeIndex that does not start at 0 / has a step (a slice of a longer frame)
+        start, step = rng.pick([(150, 1), (3, 2), (40, -1)])
+        idx = list(range(start, start + step * m, step))
     elif style == "shuffled":
         idx = list(range(10, 10 + m))
         rng.shuffle(idx)
@@ -41,7 +44,8 @@ def mk(rng, kind, n, keys, tier):
         idx = [rng.randrange(0, max(1, m // 2 + 1)) for _ in range(m)]
     else:
         idx = sorted(rng.randrange(0, max(1, m // 2 + 1)) for _ in range(m))
-    c = dict(kind=kind, n=n, keys=list(keys), idx=idx, ncols=rng.pick([1, 1, 2]),
+    rangeidx = [idx[0], idx[1] - idx[0] if m > 1 else 1] if (style == "range_off" and m > 0) else ([0, 1] if style == "range" and rng.random() < 0.5 else None)
+    c = dict(kind=kind, n=n, keys=list(keys), idx=idx, rangeidx=rangeidx, ncols=rng.pick([1, 1, 2]),
              kenc=(rng.pick(["f64", "str", "M8", "cat"]) if NULL in keys else rng.pick(["f64", "i64", "str", "cat"])),
              vdtype=rng.pick(["float64", "int64", "float32"]), kcont=rng.pick(["series", "np"]))
     if rng.random() < 0.3:
